@@ -36,4 +36,12 @@ CHECKS["C02"] = dict(
     ],
 )
 
+CHECKS["C08"] = dict(
+    pkg="c08", race=True, level="exploration", timeout_quick=600, timeout_thorough=2400,
+    technique="model-based property testing (rapid) of multi-handler Routers over scripted subscribers/publishers: routing bijection, Publish arguments by pointer identity and content, context accessors",
+    level_text="Generated router configurations (1..6 handlers with shared topics/subscribers/publishers, no-publisher handlers, output-adding middleware) receive concurrently interleaved message streams; every handler invocation and every Publish call is recorded and compared with the routing model (which function, which publisher and topic, identical pointers in order, unchanged content, context values).",
+    level_note="Trusted: scripted Pub/Sub and the model in c08_test.go. Handlers on the same (subscriber, topic) are indistinguishable to a subscriber; the check demands a bijection channel->handler, the strongest sound statement.",
+    steps=[dict(name="routing", run="^TestRouting$", quick=1500, thorough=48000, shards_thorough=16)],
+)
+
 NOT_APPLICABLE = {}
